@@ -25,6 +25,7 @@ pub mod typesound;
 registry! {
     c01 => "C01",
     c02 => "C02",
+    c04 => "C04",
     c06 => "C06",
     c07 => "C07",
     c08 => "C08",
